@@ -3,6 +3,8 @@
    with the source facts generated from /repo (Gen/MergeFacts.v): chunks_guard, entry_eq_strict,
    conflict_assert_strict.  O, cfg (heuristic oracles, differ tables), St (strategy table) and H (hooks of the
    notebook-specific strategy layer) are universally quantified: the laws hold under every strategy. *)
+From Coq Require Import String.
+From NB Require Import Diff.Codec.
 From Coq Require Import List ZArith.
 From NB Require Import Base.Res.
 From NB Require Import Base.Json.
@@ -17,6 +19,8 @@ From NB Require Import Merge.MergeSmallScope.
 From NB Require Import Merge.MergeApplyProofs.
 From NB Require Import Diff.Patch.
 From NB Require Import Gen.MergeFacts.
+From NB Require Import Diff.Wf Diff.StringProofs Diff.C01Proofs Gen.NbConfig.
+From NB Require Import Merge.MergeOnesidedList Merge.MergeOnesidedObj.
 Import ListNotations.
 
 Notation decide O cfg St H :=
@@ -64,6 +68,82 @@ Theorem merge_agree_flat_object : forall O cfg St H kv d,
                /\ apply_decisions (JObj kv) decs = patch (pfuel (JObj kv) d) (JObj kv) d.
 Proof. exact (fun O cfg St H => agree_flat_object O cfg St H chunks_guard entry_eq_strict conflict_assert_strict). Qed.
 Print Assumptions merge_agree_flat_object.
+
+(* ONE-SIDED ADOPTION AND AGREEMENT, FULL STATEMENT FOR EVERY OBJECT DOCUMENT (notebooks are objects), ANY DEPTH:
+   for every well-formed object base and every diff d that is well-formed for it (Diff/Wf.v wf_diff, the C11 predicate the
+   differ provably satisfies: nested patches into objects, lists and multi-line strings to any depth), whether d is the
+   local side's change (ML), the remote side's (MR), or both sides' (MB), under every strategy table, oracle and hook:
+   the merge RETURNS, no decision is conflicted, and applying the decisions is exactly patch(base, d).
+   The proof follows ensure_common_path (decisions pushed down singleton patch chains), validated() (stable descending sort:
+   root decisions last), and apply_decisions group by group (split_string_path, resolve_action, combine_patches, set_at). *)
+Theorem merge_onesided_object_full : forall O cfg St H (who : mode) kv d f,
+  wfj (JObj kv) = true -> wf_diff f (JObj kv) d = true ->
+  exists decs,
+    decide O cfg St H (JObj kv) (m_ld who d) (m_rd who d) = Ok decs
+    /\ no_conf decs
+    /\ forall m, depth (JObj kv) < m -> apply_decisions (JObj kv) decs = patch m (JObj kv) d.
+Proof. exact (fun O cfg St H => onesided_object O cfg St H chunks_guard entry_eq_strict conflict_assert_strict). Qed.
+Print Assumptions merge_onesided_object_full.
+
+(* composed with the notebook differ (C01/C11): when only one side changed a notebook, or both made the same change, and the
+   diffs are the ones nbdime's own notebook differ computes (any similarity heuristics), the merged notebook IS that side *)
+Theorem merge_notebook_onesided_is_that_side : forall Od n Om cfg St H (who : mode) ka b d,
+  opcodes_valid Od -> wfj (JObj ka) = true -> wfj b = true -> sources_are_strings (JObj ka) = true ->
+  diff_ Od nb_config n [] (JObj ka) b = Ok d ->
+  exists decs,
+    decide Om cfg St H (JObj ka) (m_ld who d) (m_rd who d) = Ok decs /\ no_conf decs
+    /\ apply_decisions (JObj ka) decs = Ok b.
+Proof.
+  intros Od n Om cfg St H who ka b d Hop Hwa Hwb Hsrc Hd.
+  destruct (nb_roundtrip Od n (JObj ka) b d Hop Hwa Hwb Hsrc Hd) as (Hp & Hf & _).
+  destruct (onesided_object Om cfg St H chunks_guard entry_eq_strict conflict_assert_strict who ka d _ Hwa (Hf _ (Nat.lt_succ_diag_r _)))
+    as (decs & D1 & D2 & D3).
+  exists decs. split; [exact D1|]. split; [exact D2|]. rewrite (D3 _ (Nat.lt_succ_diag_r _)). apply Hp. apply Nat.lt_succ_diag_r.
+Qed.
+Print Assumptions merge_notebook_onesided_is_that_side.
+
+Theorem merge_onesided_object_example :
+  wfj exo_base = true /\ wf_diff 6 exo_base exo_diff = true
+  /\ exists decs, decide_merge_with_diff O0 cfg0 no_strategies no_hooks GuardListTruthy false false exo_base exo_diff [] = Ok decs
+       /\ length decs = 3
+       /\ apply_decisions exo_base decs
+          = Ok (JObj [(exo_s "cells", JArr [JObj [(exo_s "source", JStr (exo_s "ab" ++ [10%N] ++ exo_s "xy" ++ [10%N]))]]);
+                      (exo_s "m", JInt 2); (exo_s "z", JNull)]).
+Proof. exact onesided_object_example. Qed.
+Print Assumptions merge_onesided_object_example.
+
+(* the three laws for LIST documents and flat list diffs of ANY length (insert / delete runs of items, e.g. whole cells at a
+   list root): whenever the merge returns, no decision is conflicted and applying the decisions is patch(base, d).  The chunker
+   (section boundaries, split on boundaries, make_chunks) and the chunk switch of _merge_lists are followed step by step. *)
+Theorem merge_onesided_l_flat_list : forall O cfg St H l d decs,
+  lst_ok (length l) 0 0 d -> d <> [] ->
+  decide O cfg St H (JArr l) d [] = Ok decs ->
+  no_conf decs /\ apply_decisions (JArr l) decs = patch (pfuel (JArr l) d) (JArr l) d.
+Proof. exact (fun O cfg St H => onesided_flat_list O cfg St H chunks_guard entry_eq_strict conflict_assert_strict). Qed.
+Print Assumptions merge_onesided_l_flat_list.
+
+Theorem merge_onesided_r_flat_list : forall O cfg St H l d decs,
+  lst_ok (length l) 0 0 d -> d <> [] ->
+  decide O cfg St H (JArr l) [] d = Ok decs ->
+  no_conf decs /\ apply_decisions (JArr l) decs = patch (pfuel (JArr l) d) (JArr l) d.
+Proof. exact (fun O cfg St H => onesided_remote_flat_list O cfg St H chunks_guard entry_eq_strict conflict_assert_strict). Qed.
+Print Assumptions merge_onesided_r_flat_list.
+
+Theorem merge_agree_flat_list : forall O cfg St H l d decs,
+  lst_ok (length l) 0 0 d -> d <> [] ->
+  decide O cfg St H (JArr l) d d = Ok decs ->
+  no_conf decs /\ apply_decisions (JArr l) decs = patch (pfuel (JArr l) d) (JArr l) d.
+Proof. exact (fun O cfg St H => agree_flat_list O cfg St H chunks_guard entry_eq_strict conflict_assert_strict). Qed.
+Print Assumptions merge_agree_flat_list.
+
+Theorem merge_flat_list_example :
+  let l := [JInt 0; JInt 1; JInt 2; JInt 3; JInt 4] in
+  let d := [DAddRange (KI 1) (VList [JInt 7; JInt 8]); DRemoveRange (KI 2) 2] in
+  lst_ok (length l) 0 0 d /\ d <> []
+  /\ exists decs, decide_merge_with_diff O0 cfg0 no_strategies no_hooks GuardListTruthy false false (JArr l) d [] = Ok decs
+                  /\ apply_decisions (JArr l) decs = Ok (JArr [JInt 0; JInt 7; JInt 8; JInt 1; JInt 4]).
+Proof. exact onesided_flat_list_example. Qed.
+Print Assumptions merge_flat_list_example.
 
 (* the same change on both sides *)
 Theorem merge_agree_partial : forall O cfg St H base d decs,
